@@ -56,7 +56,7 @@ structure SState where
   deriving Repr, Inhabited
 
 inductive Ty where
-  | num | str | name | arr
+  | num | str | name | arr | any
   deriving Repr, DecidableEq
 
 def Ty.ok : Ty → Obj → Bool
@@ -64,6 +64,8 @@ def Ty.ok : Ty → Obj → Bool
   | .str, .str _ => true
   | .name, .name _ => true
   | .arr, .arr _ => true
+  | .any, .null => false     -- `null` is not an object: the parser does not hand it over as an operand
+  | .any, _ => true
   | _, _ => false
 
 def _root_.PdfVerif.Content.Obj.isBool : Obj → Bool
@@ -75,7 +77,27 @@ def wellTyped : List Ty → List Obj → Bool
   | t :: ts, o :: os => t.ok o && wellTyped ts os
   | _, _ => false
 
-/-- Operand types of each operator (Tables 57, 74, 105, 108, 109, 87); `none`: not an operator of the property. -/
+/-- The operators of a content stream that are *not* in the property's list, by the suffix of
+pdfminer's method name (`f*` → `f_a`), with their number of operands: general graphics state
+(Table 57: `w J j M d ri i gs`), path construction (Table 59), path painting (Table 60), clipping
+(Table 61), shading (Table 77), marked content (Table 320), compatibility (Table 32).  The text
+model gives none of them an effect on the text state, the CTM, the colours or the glyphs shown. -/
+def neutralTable : List (String × Nat) :=
+  [("w", 1), ("J", 1), ("j", 1), ("M", 1), ("d", 2), ("ri", 1), ("i", 1), ("gs", 1),
+   ("m", 2), ("l", 2), ("c", 6), ("v", 4), ("y", 4), ("h", 0), ("re", 4),
+   ("S", 0), ("s", 0), ("f", 0), ("F", 0), ("f_a", 0), ("B", 0), ("B_a", 0), ("b", 0), ("b_a", 0), ("n", 0),
+   ("W", 0), ("W_a", 0), ("sh", 1),
+   ("MP", 1), ("DP", 2), ("BMC", 1), ("BDC", 2), ("EMC", 0), ("BX", 0), ("EX", 0)]
+
+def neutralArity (name : String) : Option Nat := lookup name neutralTable
+
+/-- Figure 9: general graphics state, marked content and compatibility operators may also appear
+inside a text object; path construction / painting / clipping and `sh` only at page level. -/
+def neutralInText (name : String) : Bool :=
+  ["w", "J", "j", "M", "d", "ri", "i", "gs", "MP", "DP", "BMC", "BDC", "EMC", "BX", "EX"].contains name
+
+/-- Operand types of each operator (Tables 57, 74, 105, 108, 109, 87); `none`: not an operator of a
+content stream.  The operators outside the property's list take operands of any type. -/
 def sig (gs : GS) : Op → Option (List Ty)
   | .q | .Q | .BT | .ET | .Tstar => some []
   | .cm | .Tm => some [.num, .num, .num, .num, .num, .num]
@@ -90,7 +112,7 @@ def sig (gs : GS) : Op → Option (List Ty)
   | .cs | .CS | .Do => some [.name]
   | .sc | .scn => some (List.replicate gs.fillN .num)
   | .SC | .SCN => some (List.replicate gs.strokeN .num)
-  | .other _ => none
+  | .other n => (neutralArity n).map (fun k => List.replicate k Ty.any)
 
 def isTextState : Op → Bool
   | .Tc | .Tw | .Tz | .TL | .Tf | .Tr | .Ts => true
@@ -104,9 +126,11 @@ def isColour : Op → Bool
 def allowed (inText : Bool) (o : Op) : Bool :=
   if inText then
     isTextState o || isColour o ||
-      (match o with | .Td | .TD | .Tm | .Tstar | .Tj | .TJ | .quote | .dquote | .ET => true | _ => false)
+      (match o with | .Td | .TD | .Tm | .Tstar | .Tj | .TJ | .quote | .dquote | .ET => true
+                    | .other n => neutralInText n | _ => false)
   else
-    isTextState o || isColour o || (match o with | .q | .Q | .cm | .Do | .BT => true | _ => false)
+    isTextState o || isColour o ||
+      (match o with | .q | .Q | .cm | .Do | .BT => true | .other n => (neutralArity n).isSome | _ => false)
 
 def unitRange (c : Color) : Bool := c.all (fun x => decide (0 ≤ x) && decide (x ≤ 1))
 
@@ -164,6 +188,13 @@ def posVx (f : Font) (tfs : Rat) (code : Nat) : Rat :=
   | none => tfs / 2
   | some vx => vx / 1000 * tfs
 
+/-- `LTChar.upright` — pdfminer's documented notion "the glyph is not rotated or mirrored", for a
+glyph painted with text rendering matrix `[a b c d e f]` under horizontal scaling `Th`: the
+diagonal keeps its orientation (`a·d·Th > 0`) and the off-diagonal terms do not have the same sign
+(`b·c ≤ 0`, as in a rotation `[cos sin −sin cos]`). -/
+def uprightOf (trm : Matrix) (th : Rat) : Bool :=
+  decide (0 < trm.1 * trm.2.2.2.1 * (th / 100)) && decide (trm.2.1 * trm.2.2.1 ≤ 0)
+
 /-- What `LTChar` reports for a glyph the text model paints with `Tm × CTM = trm`.
 Horizontal writing: advance `w0·Tfs·Th`, box `[0, d+Trise, adv, d+Trise+Tfs]` (d = descent·Tfs).
 Vertical writing: advance `w1·Tfs` (not scaled by Th), box placed by the position vector `(vx, vy)`
@@ -176,12 +207,14 @@ def observe (trm : Matrix) (f : Font) (gs : GS) (code : Nat) : Glyph :=
     let vx := posVx f gs.Tfs code
     let vy := (1000 - (f.disp code).2) / 1000 * gs.Tfs
     let (x0, y0, x1, y1) := apply_matrix_rect trm (-vx, vy + gs.Trise + adv, -vx + gs.Tfs, vy + gs.Trise)
-    { m := trm, adv := adv, bbox := (x0, y0, x1, y1), size := x1 - x0, font := f.name, col := gs.fill }
+    { m := trm, adv := adv, bbox := (x0, y0, x1, y1), size := x1 - x0, upright := uprightOf trm gs.Th,
+      font := f.name, col := gs.fill }
   else
     let adv := w * gs.Tfs * (gs.Th / 100)
     let d := f.descent * f.vscale * gs.Tfs
     let (x0, y0, x1, y1) := apply_matrix_rect trm (0, d + gs.Trise, adv, d + gs.Trise + gs.Tfs)
-    { m := trm, adv := adv, bbox := (x0, y0, x1, y1), size := y1 - y0, font := f.name, col := gs.fill }
+    { m := trm, adv := adv, bbox := (x0, y0, x1, y1), size := y1 - y0, upright := uprightOf trm gs.Th,
+      font := f.name, col := gs.fill }
 
 /-- 9.4.4 for one glyph: horizontal `tx = (w0·Tfs + Tc + Tw)·Th`, vertical `ty = w1·Tfs + Tc + Tw`;
 word spacing only for the single-byte code 32. -/
@@ -332,6 +365,8 @@ def apply (env : Env) (runForm : Form → GS → Res → Option (List Glyph)) (s
         match runForm fm gs { fm.res.getD s.res with active := i :: s.res.active } with
         | none => none
         | some gl => some (s, gl)
+  -- an operator outside the property's list (only `sig` admits it): no effect on anything observed here
+  | .other _, _ => some (s, [])
   | _, _ => none
 
 /-- One instruction. -/
